@@ -132,8 +132,9 @@ def doOp (cwd : Bytes) (h : HState) (op : Term) : HState × String :=
       else some { dir := hexOf d, ext := hexOf e, errPage := hexOf ep, debug := dbg == "1" }
     match newTemplate h.w o with
     | (w, .ok t) =>
-      ({ w, tpl := some t }, "NEWOK " ++ String.intercalate "," ((sortByKey t).map fun p => toHex p.1))
+      ({ w, tpl := some t }, "NEWOK " ++ String.intercalate "," ((sortByKey t).map fun p => hd p.1))
     | (w, .error f) => ({ w, tpl := none }, "NEWERR " ++ showFail f)
+  | .list [.atom "RESET"] => ({ w := { fs := h.w.fs }, tpl := none }, "RESETOK")
   | .list [.atom "REG", .atom ty, .atom n, .atom fid] =>
     match registerFunc h.w (vtypeOf ty) (hexOf n) (fid.toNat?.getD 0) with
     | (w, none) => ({ h with w }, "REGOK")
